@@ -175,6 +175,7 @@ func shDims(a *anchors, r *sx.Rep, hdrT types.Type) {
 			okT = false
 		}
 	}
+	a.shTable = table
 	if okT {
 		r.Hold("TAB", key, pos, "degree→coefficients "+strings.Join(rows, " ")+" = (d+1)²−1")
 	} else {
